@@ -398,7 +398,7 @@ def lla_fwd(vc):
     if not vc.symbolic:
         a, e2 = float(a), float(e2)
     lat = vc.angle("lat", -1.5707, 1.5707)
-    lon = vc.angle("lon", -3.1415, 3.1415)
+    lon = vc.angle("lon", -6.3, 6.3)  # (east longitudes are configured both as -180..180 and as 0..360)
     alt = vc.real("alt", -10, 1e5)
     f = vc.fn(TM + "lla2ecef")
     dt = object if vc.symbolic else float
@@ -562,6 +562,12 @@ def radec_bounded(vc):
     lat, lon, alt = vc.real("lat", -1.5, 1.5), vc.real("lon", -3.1, 3.1), vc.real("alt", 0, 5)
     utc = datetime.datetime(2014, 6, 1) + datetime.timedelta(seconds=vc.int("secs", 0, 86400 * 3000))
     obs = M_.ecef2eci(np.concatenate([M_.lla2ecef(np.array([lat, lon, alt]))[:3], np.zeros(3)]), utc)
+    if vc.bool("observer_in_orbit"):  # a space-based sensor: it moves in the Earth-fixed frame
+        u = obs[:3] / np.linalg.norm(obs[:3])
+        w = np.cross(u, [0.2, 0.5, -0.8])
+        w = w / np.linalg.norm(w)
+        rad = 6378.0 + vc.real("observer_height", 300, 36000)
+        obs = np.concatenate([rad * u, np.sqrt(398600.4418 / rad) * w])
     rel = vc.vec("rel", 3, -4e4, 4e4)
     vc.assume(np.linalg.norm(rel) > 100)
     tgt = np.concatenate([obs[:3] + rel, vc.vec("tv", 3, -8, 8)])
@@ -606,12 +612,17 @@ def lla_inverse_bounded(vc):
         lon = np.pi
     elif special == 3:
         alt = 0.0
+    elif special in (4, 5):  # next to a pole (not on it): 1e-3 .. 1e-9 rad away
+        lat = (np.pi / 2 - 10 ** -vc.real("pole_distance_exp", 3, 9)) * (1 if special == 4 else -1)
     lla = np.array([lat, lon, alt])
     ecef = M_.lla2ecef(lla)
     got = np.asarray(M_.ecef2lla(ecef), dtype=float)
-    ok_lat = abs(got[0] - lat) < 1e-9
-    ok_lon = abs(np.cos(lat)) < 1e-9 or abs((got[1] - lon + np.pi) % (2 * np.pi) - np.pi) < 1e-9
-    vc.ensure("B-C04-lla.ecef2lla-lla2ecef", bool(ok_lat and ok_lon and abs(got[2] - alt) < 1e-6))
+    near_pole = abs(abs(lat) - np.pi / 2) < 1e-4
+    # (within ~600 m of a pole the closed form loses the last digits of the latitude: it is held to a metre there - the tolerance of C11 -, to a millimetre elsewhere)
+    ptol, atol, ltol = (1e-3, 1e-3, 1e-6) if near_pole else (1e-6, 1e-6, 1e-9)
+    ok_lat = abs(got[0] - lat) < ltol
+    ok_lon = abs(np.cos(lat)) < 1e-9 or near_pole or abs((got[1] - lon + np.pi) % (2 * np.pi) - np.pi) < 1e-9
+    vc.ensure("B-C04-lla.ecef2lla-lla2ecef", bool(ok_lat and ok_lon and abs(got[2] - alt) < atol))
     back = M_.lla2ecef(got)
-    vc.ensure("B-C04-lla.lla2ecef-ecef2lla", bool(np.linalg.norm(back[:3] - ecef[:3]) < 1e-6))
+    vc.ensure("B-C04-lla.lla2ecef-ecef2lla", bool(np.linalg.norm(back[:3] - ecef[:3]) < ptol))
     vc.ensure("B-C04-lla.ranges", bool(-np.pi / 2 - 1e-12 <= got[0] <= np.pi / 2 + 1e-12 and -np.pi - 1e-12 <= got[1] <= np.pi + 1e-12))
